@@ -49,8 +49,8 @@ def _sep(draw, base):
 def _case(draw):
     d = draw(c17._desc(draw(st.sampled_from(["kida", "uclchem-upper", "leeds-grain", "umist-mod", "naunet"]))))
     d.pop("kind")
-    d["name"] = draw(st.sampled_from(["vtproj", "my_net"]))
-    d["description"] = draw(st.sampled_from(["", "a test project"]))
+    d["name"] = draw(st.sampled_from(["vtproj", "my_net", "nullnet"]))
+    d["description"] = draw(st.sampled_from(["", "a test project", "annulled rates"]))
     d["bulk"] = draw(st.sampled_from(["@", "@", "%"]))
     d["grain_symbol"] = "GRAIN"
     if not d["elements"]:
